@@ -167,13 +167,6 @@ def judge_program(meta, ans, cat):
     if kind != "edit":
         if (not deferred) != (e2 == 0) and not out:
             out.append(("C08/%s/deferred-error-set" % shape, "Assembler errors in call order %s but the grouped direct sequence fails with %d" % ([ea[i] for i in deferred], e2)))
-    if meta.get("validate") and kind != "edit":
-        holes = [i for i in deferred if operand_after_hole(lines[i])]
-        if holes and out:
-            # recorded defect: under strict validation the Builder validates op_count_from_emit_args() operands, the Assembler all six slots
-            return [("C08/strict-validation-operand-after-hole",
-                     "call %d `%s`: refused by the Assembler under kValidateAssembler (%d), accepted by the Builder under kValidateIntermediate, "
-                     "which records it without the operand(s) after the empty slot" % (holes[0], lines[holes[0]], ea[holes[0]]))]
     # 4. images
     for w in (0, 1):
         b, r2, r1 = ans["IMG"][(w, "B")], ans["IMG"][(w, "R2")], ans["IMG"][(w, "R1")]
@@ -185,6 +178,14 @@ def judge_program(meta, ans, cat):
             b, r1 = strip_bytes(b), strip_bytes(r1)
         if kind != "edit" and not any(ea) and not any(eb) and fb == 0 and b != r1:
             out.append(("C08/%s/image-differs-from-direct-assembling" % shape, "Builder image differs from the Assembler fed the calls in call order (base #%d):\n B : %s\n R1: %s" % (w, b[:400], r1[:400])))
+    if out and kind == "malformed":
+        holes = [i for i, l in enumerate(lines) if operand_after_hole(l)]
+        if holes:
+            # recorded defect (malformed calls only): the Builder records op_count_from_emit_args() operands, i.e. it drops every operand that follows
+            # an empty slot, while the Assembler sees all six slots (refuses the call, or - AArch64 register lists - encodes something else)
+            return [("C08/operand-after-hole-dropped",
+                     "call %d `%s` has an operand after an empty slot: the Builder records it without that operand (C08_all_operands_kept_refuted), "
+                     "the Assembler uses all six slots; first disagreement: %s" % (holes[0], lines[holes[0]], out[0][1][:300]))]
     return out
 
 
@@ -405,7 +406,9 @@ def run(ck):
                     what += "  [shrunk from %d to %d commands: %s]" % (len(meta["lines"]), ncmd, " ; ".join(small.split("\n")[1:1 + min(ncmd, 12)]))
             ck.violation(key, "program %d (%s, arch %d): %s" % (meta["pidx"], meta["kind"], meta["arch"], what), rp)
         # node-list differential with the proven model
-        if model and mans:
+        if any(l.split()[0] in ("NC", "JA", "IJ", "IV") for l in meta["lines"]):
+            oracle_only += 1        # _new_const / jump annotations / invoke nodes are not in the model: judged by the oracle only (counted)
+        elif model and mans:
             m = mans.get(meta["pidx"])
             if m is None or a is None:
                 ck.violation("C08/model-no-answer", "model gave no answer for program %d" % meta["pidx"], {"program": text, "broken": "correspondence stream"}, no_input=True)
